@@ -135,6 +135,10 @@ def build(n):
         return redun.get_context(n[1], n[2])
     if k == "noprov":
         return rf.no_prov(build(n[1]))
+    if k == "handle":
+        return T.VHandle(n[1])
+    if k == "merge_handles":
+        return redun.merge_handles([build(a) for a in n[1]])
     raise ValueError("unknown node %r" % (k,))
 
 
@@ -192,6 +196,8 @@ def canon(v):
         return ["dc:" + t.__name__, [[f.name, canon(getattr(v, f.name))] for f in dataclasses.fields(v)]]
     if t.__name__ == "Thread":
         return ["thread"]
+    if hasattr(v, "__handle__"):
+        return ["handle", v.__handle__.fullname, v.__handle__.hash]
     return ["obj:" + t.__name__, repr(v)]
 
 
@@ -602,6 +608,8 @@ def children(n):
         return [n[2]]
     if k in ("apply_func", "as_task"):
         return list(n[2])
+    if k == "merge_handles":
+        return list(n[1])
     if k == "partial":
         return list(n[2]) + list(n[3])
     if k == "partialval":
@@ -655,6 +663,8 @@ def map_calls(n, fn):
         return [k, n[1], [map_calls(a, fn) for a in n[2]]]
     if k in ("fork", "join", "noprov"):
         return [k, map_calls(n[1], fn)]
+    if k == "merge_handles":
+        return [k, [map_calls(a, fn) for a in n[1]]]
     if k == "apply_tags":
         return [k, map_calls(n[1], fn), n[2], n[3], n[4]]
     return n
@@ -671,6 +681,7 @@ class Gen:
         self.err_budget = err_budget
         self.allow = allow  # None = everything; else a set of production names
         self.uid = 0
+        self.pool = []  # sub-expressions generated so far (re-emitted as equal-hash duplicates)
 
     def ok(self, name):
         return self.allow is None or name in self.allow
@@ -689,7 +700,20 @@ class Gen:
 
     def int_expr(self, d):
         """An AST that evaluates to an int (or fails)."""
+        e = self._int_expr(d)
+        if e[0] != "val" and len(self.pool) < 8 and self.rnd.random() < 0.35:
+            self.pool.append(e)
+        return e
+
+    def reuse(self):
+        import json
+        return json.loads(json.dumps(self.rnd.choice(self.pool)))
+
+    def _int_expr(self, d):
         rnd = self.rnd
+        if self.pool and self.ok("reuse") and rnd.random() < 0.12:
+            # the same expression again (equal hash): merged when reached from the same parent job
+            return self.reuse()
         if d <= 0:
             return self.lit() if rnd.random() < 0.5 else ["call", rnd.choice(["inc", "neg", "ident"]), [self.lit()], {}, {}]
         prods = ["leafcall", "leafcall", "leafcall", "inc2", "op", "rop", "getitem", "getattr", "cond", "catch",
@@ -734,6 +758,10 @@ class Gen:
             return ["cond", clauses]
         if p == "catch":
             body = self.fail_leaf() if self.err_budget > 0 and rnd.random() < 0.6 else sub()
+            if self.pool and rnd.random() < 0.3:
+                body = self.reuse()
+            elif body[0] != "val" and len(self.pool) < 8:
+                self.pool.append(body)  # the guarded expression may re-appear unguarded elsewhere
             if rnd.random() < 0.4 and body[0] == "call" and body[1] == "fail":
                 body = ["call", "add", [body, sub()], {}, {}]
             handlers = []
@@ -803,6 +831,8 @@ class Gen:
     def list_expr(self, d, force_call=False, minlen=0):
         rnd = self.rnd
         prods = ["fan", "map", "flat_map", "mklist", "seq", "catch_all", "twice", "mapmap"]
+        if self.err_budget > 0:
+            prods.append("guardbare")
         if not force_call:
             prods += ["cont", "cont"]
         prods = [p for p in prods if self.ok(p)] or ["mklist"]
@@ -810,6 +840,17 @@ class Gen:
         sub = lambda: self.int_expr(max(d - 1, 0))  # noqa: E731
         n = rnd.randint(max(minlen, 0 if minlen == 0 else 1), self.fan) if self.fan >= max(minlen, 1) else minlen
         n = max(n, minlen)
+        if p == "guardbare":
+            # the same (possibly failing) expression once guarded by catch and once bare, under one parent
+            import json
+            x = self.fail_leaf() if rnd.random() < 0.7 else sub()
+            if rnd.random() < 0.4:
+                x = ["call", "add", [x, self.lit()], {}, {}]
+            guarded = ["catch", json.loads(json.dumps(x)), [[["Exception"], "recov_const"]]]
+            items = [guarded, json.loads(json.dumps(x))]
+            if rnd.random() < 0.5:
+                items.reverse()
+            return ["seq", items] if rnd.random() < 0.5 else ["call", "mklist", items, {}, {}]
         if p == "cont":
             return ["cont", "list", [sub() for _ in range(n)]]
         if p == "mklist":
